@@ -200,7 +200,7 @@ func propC18() Property {
 	return Property{
 		ID: "C18",
 		Explanation: "R1 (weekday domain): every time.Weekday value that the schedule code uses as a weekday — compared with another weekday, passed to or returned from a Weekday-typed parameter/result, stored in a Weekday field — lies in [0,6], by interval analysis over the expression (Time.Weekday() ∈ [0,6], constants, parameter intervals joined over in-module call sites, Go's truncated %, +, −). A Weekday difference converted straight to int (day-offset arithmetic) is not a sink. " +
-			"R2 (day-name table): every key of the configuration's day map names the Weekday constant it maps to (three-letter prefix), and all seven days are present. R3 (calendar days): window boundaries are wall-clock times in the configured zone, so moving a boundary by whole days must use calendar arithmetic (AddDate / time.Date); no time.Add / Sub in the schedule code takes a duration that is a day count times 24h — on a day with a zone transition that is an hour off, and two instants of one window are reported as different sessions. R4 (one zone): every weekday / clock / date component read in a method of the schedule type is read from t.In(the range's location) or from a time.Date in that location. R5 (no dead arm): no block of those methods has a reach condition that demands incompatible orderings of the same two operands — an arm shadowed by a weakened earlier case never applies.",
+			"R2 (day-name table): every key of the configuration's day map names the Weekday constant it maps to (three-letter prefix), and all seven days are present. R3 (calendar days): window boundaries are wall-clock times in the configured zone, so moving a boundary by whole days must use calendar arithmetic (AddDate / time.Date); no time.Add / Sub in the schedule code takes a duration that is a day count times 24h — on a day with a zone transition that is an hour off, and two instants of one window are reported as different sessions. R4 (one zone): every weekday / clock / date component read in a method of the schedule type is read from t.In(the range's location) or from a time.Date in that location. R5 (no dead arm): no block of those methods has a reach condition that demands incompatible orderings of the same two operands — an arm shadowed by a weakened earlier case never applies. R6: every comparison of the window's start and end time-of-day has the polarity start < end (or its complement), so equal times are a full cycle everywhere.",
 		NotDecided: "window semantics, IsInSameRange as a relation, time zones, daylight saving.",
 		Rules: []RuleDef{
 			{ID: "C18-R1", Desc: "weekday values stay in [0,6]", Min: 2, Run: c18R1},
@@ -208,6 +208,7 @@ func propC18() Property {
 			{ID: "C18-R3", Desc: "whole days are added on the calendar, not as multiples of 24h", Min: 1, Run: c18R3},
 			{ID: "C18-R4", Desc: "wall-clock components are read in the configured zone", Min: 6, Run: c18R4},
 			{ID: "C18-R5", Desc: "no decision arm of the schedule code is dead by contradiction", Min: 10, Run: c18R5},
+			{ID: "C18-R6", Desc: "start/end time comparisons have one polarity (start < end)", Min: 2, Run: c18R6},
 		},
 	}
 }
